@@ -39,6 +39,9 @@ const (
 	streamOpened streamState = iota
 	streamClosed
 	streamHalfClosed
+	// Close() was called while a callback goroutine was running: the stream is closed for its user,
+	// the callback goroutine completes the close (and reports it) when it exits.
+	streamLocalHalfClosed
 )
 
 const (
@@ -277,7 +280,7 @@ func (s *Stream) Close() error {
 		atomic.StoreUint32(&s.callbackCloseState, uint32(callbackWaitExit))
 	}
 	if atomic.LoadUint32(&s.callbackInProcess) == 1 {
-		atomic.CompareAndSwapUint32(&s.state, uint32(streamOpened), uint32(streamHalfClosed))
+		atomic.CompareAndSwapUint32(&s.state, uint32(streamOpened), uint32(streamLocalHalfClosed))
 		return nil
 	}
 
@@ -292,7 +295,7 @@ func (s *Stream) close() error {
 			s.asyncGoroutineWg.Wait()
 		}
 		s.clean()
-		if oldState == uint32(streamOpened) {
+		if oldState == uint32(streamOpened) || oldState == uint32(streamLocalHalfClosed) {
 			s.safeCloseNotify()
 			callback := s.getCallbacks()
 			if callback != nil {
